@@ -1902,4 +1902,455 @@ theorem modifyParams_hist {h : Heap} {X : Oid} {us : List PUpd} {h' : Heap}
       apply getPar_of_look; rw [look_put, if_pos rfl, if_pos hPlt]
     rw [paramHist_eq hs' hp', paramHist_eq hs hp, applyUpds_ok p us hu]
 
+/-! ## Every variable object can be rebuilt from its class and its baseline (`Variable.clone`) -/
+
+/-- the attributes `Variable.__init__` computes (not the formulas, nor the neutralised flag, which
+    `get_annualized_variable` / `get_neutralized_variable` overwrite on the instance) -/
+def AttrsEq (a b : VarObj) : Prop :=
+  a.cls = b.cls ∧ a.valueType = b.valueType ∧ a.default = b.default ∧ a.entity = b.entity ∧
+  a.defPeriod = b.defPeriod ∧ a.endDate = b.endDate ∧ a.setInput = b.setInput
+
+instance (a b : VarObj) : Decidable (AttrsEq a b) := by unfold AttrsEq; infer_instance
+
+theorem AttrsEq.refl (a : VarObj) : AttrsEq a a := ⟨rfl, rfl, rfl, rfl, rfl, rfl, rfl⟩
+
+/-- `Variable.clone()` (repaired, F-C14b) succeeds on every variable object and gives back its
+    attributes -/
+def Consistent (h : Heap) : Prop := ∀ i v, h.getVar i = some v → ∃ c, cloneVar h v = .ok c ∧ AttrsEq c v
+
+theorem construct_fields {h : Heap} {cls : ClassDef} {bid : Option Oid} {v : VarObj}
+    (hc : construct h cls bid = .ok v) : v.cls = cls ∧ v.baseline = bid := by
+  unfold construct at hc
+  cases bid with
+  | none =>
+    dsimp only at hc
+    obtain ⟨a, b, _⟩ := constructWith_none hc
+    exact ⟨a, b⟩
+  | some i =>
+    dsimp only at hc
+    cases hb : h.getVar i with
+    | none => rw [hb] at hc; cases hc
+    | some b =>
+      rw [hb] at hc
+      obtain ⟨a, b', _⟩ := constructWith_some hc
+      exact ⟨a, b'⟩
+
+/-- building a variable reads the heap only at its baseline -/
+theorem construct_keeps {h h' : Heap} (hk : ∀ i v, h.getVar i = some v → h'.getVar i = some v)
+    {cls : ClassDef} {bid : Option Oid} {c : VarObj} (hc : construct h cls bid = .ok c) :
+    construct h' cls bid = .ok c := by
+  unfold construct at hc ⊢
+  cases bid with
+  | none => exact hc
+  | some i =>
+    dsimp only at hc ⊢
+    cases hb : h.getVar i with
+    | none => rw [hb] at hc; cases hc
+    | some b => rw [hb] at hc; rw [hk i b hb]; exact hc
+
+/-- … and of the baseline only what can be observed of it -/
+theorem constructWith_view_congr {cls : ClassDef} {i i' : Oid} {bo bo' c : VarObj}
+    (hv : bo'.view = bo.view) (hc : constructWith cls (some i) (some bo) = .ok c) :
+    constructWith cls (some i') (some bo') = .ok { c with baseline := some i' } := by
+  have e1 : bo'.valueType = bo.valueType := congrArg VarView.valueType hv
+  have e2 : bo'.default = bo.default := congrArg VarView.default hv
+  have e3 : bo'.entity = bo.entity := congrArg VarView.entity hv
+  have e4 : bo'.defPeriod = bo.defPeriod := congrArg VarView.defPeriod hv
+  have e5 : bo'.endDate = bo.endDate := congrArg VarView.endDate hv
+  have e6 : bo'.setInput = bo.setInput := congrArg VarView.setInput hv
+  have e7 : bo'.formulas = bo.formulas := congrArg VarView.formulas hv
+  unfold constructWith at hc ⊢
+  simp only [Option.map_some, requiredAttr_some, e1, e2, e3, e4, e5, e6, e7] at hc ⊢
+  split at hc
+  · cases hc
+  · rename_i decl hd
+    simp only [Except.ok.injEq] at hc ⊢
+    subst hc
+    rfl
+
+/-- one step: the old objects are kept, every new variable object can be rebuilt -/
+theorem consistent_step {h h' : Heap} (hc : Consistent h)
+    (hk : ∀ i v, h.getVar i = some v → h'.getVar i = some v)
+    (hnew : ∀ i w, h'.getVar i = some w → h.getVar i = some w ∨ ∃ c, cloneVar h' w = .ok c ∧ AttrsEq c w) :
+    Consistent h' := by
+  intro i w hw
+  rcases hnew i w hw with hold | hn
+  · obtain ⟨c, hcl, ha⟩ := hc i w hold
+    exact ⟨c, construct_keeps hk hcl, ha⟩
+  · exact hn
+
+theorem getVar_put_nonvar {h : Heap} {j i : Nat} {o : Obj} {x : VarObj} (ho : ∀ v, o ≠ .var v)
+    (hg : (h.put j o).getVar i = some x) : h.getVar i = some x := by
+  have hl := look_of_getVar hg
+  rw [look_put] at hl
+  by_cases hji : j = i
+  · rw [if_pos hji] at hl
+    by_cases hlt : j < h.next
+    · rw [if_pos hlt] at hl; cases hl; exact absurd rfl (ho x)
+    · rw [if_neg hlt] at hl; cases hl
+  · rw [if_neg hji] at hl; exact getVar_of_look hl
+
+theorem getVar_allocs_cases {h : Heap} {os : List Obj} {i : Nat} {x : VarObj}
+    (hg : (h.allocs os).getVar i = some x) : h.getVar i = some x ∨ (h.next ≤ i ∧ os[i - h.next]? = some (.var x)) := by
+  have hl := look_of_getVar hg
+  rw [look_allocs] at hl
+  by_cases hlt : i < h.next
+  · rw [if_pos hlt] at hl; exact Or.inl (getVar_of_look hl)
+  · rw [if_neg hlt] at hl; exact Or.inr ⟨Nat.le_of_not_lt hlt, hl⟩
+
+theorem consistent_put_nonvar {h : Heap} (hc : Consistent h) {j : Nat} {o o' : Obj} (hl : h.look j = some o)
+    (hv : ∀ v, o ≠ .var v) (he : ∀ e, o ≠ .ent e) (ho' : ∀ v, o' ≠ .var v) : Consistent (h.put j o') :=
+  consistent_step hc (keeps_put (X := 0) hl hv he).keepVar (fun _ _ hg => Or.inl (getVar_put_nonvar ho' hg))
+
+theorem consistent_allocs_nonvar {h : Heap} (hc : Consistent h) (os : List Obj) (hos : ∀ o ∈ os, ∀ v, o ≠ .var v) :
+    Consistent (h.allocs os) :=
+  consistent_step hc (keeps_allocs h 0 os).keepVar (fun i w hg => by
+    rcases getVar_allocs_cases hg with h1 | ⟨_, h2⟩
+    · exact Or.inl h1
+    · exact absurd rfl (hos _ (List.mem_of_getElem? h2) w))
+
+/-- binding a new variable object that can be rebuilt -/
+theorem consistent_bindVar {h : Heap} (hc : Consistent h) {X : Oid} {s : SysObj} {m : List (String × Oid)}
+    (hs : h.getSys X = some s) (hm : h.getMap s.vars = some m) (name : String) (w : VarObj)
+    (hw : ∃ c, cloneVar h w = .ok c ∧ AttrsEq c w) : Consistent (bindVar h s m name w) := by
+  obtain ⟨_, _, hkeep⟩ := bindVar_reads hs hm name w
+  refine consistent_step hc hkeep (fun i x hg => ?_)
+  have hb : bindVar h s m name w = (h.allocs [.var w]).put s.vars (.vmap (dictSet name h.next m)) := rfl
+  rw [hb] at hg
+  have h1 := getVar_put_nonvar (by intro v; simp) hg
+  rcases getVar_allocs_cases h1 with h2 | ⟨hge, h2⟩
+  · exact Or.inl h2
+  · right
+    have hi : i - h.next = 0 := by
+      cases hx : i - h.next with
+      | zero => rfl
+      | succ k => rw [hx] at h2; simp at h2
+    rw [hi] at h2
+    simp only [List.getElem?_cons_zero, Option.some.injEq, Obj.var.injEq] at h2
+    subst h2
+    obtain ⟨c, hcl, ha⟩ := hw
+    exact ⟨c, construct_keeps hkeep hcl, ha⟩
+
+theorem consistent_loadVariable {h : Heap} (hc : Consistent h) (X : Oid) (cls : ClassDef) (u : Bool) :
+    Consistent (loadVariable h X cls u).1 := by
+  rcases loadVariable_inv h X cls u with ⟨e, he⟩ | ⟨s, m, v, hs, hm, _, hcons, he⟩
+  · rw [he]; exact hc
+  · rw [he]
+    obtain ⟨f1, f2⟩ := construct_fields hcons
+    exact consistent_bindVar hc hs hm _ v ⟨v, by unfold cloneVar; rw [f1, f2]; exact hcons, AttrsEq.refl v⟩
+
+theorem consistent_replaceVariable {h : Heap} (hc : Consistent h) (X : Oid) (cls : ClassDef) :
+    Consistent (replaceVariable h X cls).1 := by
+  rcases replaceVariable_inv h X cls with ⟨e, he⟩ | ⟨s, m, hs, hm, _, he⟩ | ⟨s, m, vid, hs, hm, _, he⟩
+  · rw [he]; exact hc
+  · rw [he]; exact consistent_loadVariable hc X cls false
+  · rw [he]
+    exact consistent_loadVariable
+      (consistent_put_nonvar hc (look_of_getMap hm) (by intro v; simp) (by intro e; simp) (by intro v; simp)) X cls false
+
+theorem consistent_neutralizeVar {h : Heap} (hc : Consistent h) (X : Oid) (name : String) :
+    Consistent (neutralizeVar h X name).1 := by
+  rcases neutralizeVar_inv h X name with ⟨e, he⟩ | ⟨s, m, vid, v, c, hs, hm, _, hgv, hcl, he⟩
+  · rw [he]; exact hc
+  · rw [he]
+    obtain ⟨f1, f2⟩ := construct_fields hcl
+    refine consistent_bindVar hc hs hm _ _ ⟨c, ?_, ⟨rfl, rfl, rfl, rfl, rfl, rfl, rfl⟩⟩
+    show construct h c.cls c.baseline = .ok c
+    rw [f1, f2]; exact hcl
+
+theorem consistent_annualizeVar {h : Heap} (hc : Consistent h) (X : Oid) (name : String) :
+    Consistent (annualizeVar h X name).1 := by
+  rcases annualizeVar_inv h X name with ⟨e, he⟩ | ⟨s, m, vid, v, c, hs, hm, _, hgv, hcl, he⟩
+  · rw [he]; exact hc
+  · rw [he]
+    obtain ⟨f1, f2⟩ := construct_fields hcl
+    refine consistent_bindVar hc hs hm _ _ ⟨c, ?_, ⟨rfl, rfl, rfl, rfl, rfl, rfl, rfl⟩⟩
+    show construct h c.cls c.baseline = .ok c
+    rw [f1, f2]; exact hcl
+
+theorem consistent_modifyParams {h : Heap} (hc : Consistent h) (X : Oid) (us : List PUpd) :
+    Consistent (modifyParams h X us).1 := by
+  rcases modifyParams_inv h X us with ⟨e, he⟩ | ⟨s, p, b, p', hs, hp, hb, _, he⟩ | ⟨s, p, p', r, hs, hp, hb, _, he⟩
+  · rw [he]; exact hc
+  · rw [he]
+    have c1 : Consistent (h.allocs [.par p']) :=
+      consistent_allocs_nonvar hc _ (by intro o ho v; simp at ho; subst ho; simp)
+    have lX1 : (h.allocs [.par p']).look X = some (.sys s) := by
+      rw [look_allocs_lt h _ (lt_next_of_look h (look_of_getSys hs))]; exact look_of_getSys hs
+    exact consistent_put_nonvar c1 lX1 (by intro v; simp) (by intro e; simp) (by intro v; simp)
+  · rw [he]
+    exact consistent_put_nonvar hc (look_of_getPar hp) (by intro v; simp) (by intro e; simp) (by intro v; simp)
+
+theorem consistent_applyMod {h : Heap} (hc : Consistent h) (X : Oid) (m : Mod) : Consistent (applyMod h X m).1 := by
+  cases m with
+  | add c => exact consistent_loadVariable hc X c false
+  | update c => exact consistent_loadVariable hc X c true
+  | replace c => exact consistent_replaceVariable hc X c
+  | neutralize nm => exact consistent_neutralizeVar hc X nm
+  | annualize nm => exact consistent_annualizeVar hc X nm
+  | params us => exact consistent_modifyParams hc X us
+
+theorem consistent_applyMods {h : Heap} (hc : Consistent h) (X : Oid) (ms : List Mod) :
+    Consistent (applyMods h X ms).1 := by
+  induction ms generalizing h with
+  | nil => exact hc
+  | cons m r ih =>
+    have c1 := consistent_applyMod hc X m
+    unfold applyMods
+    cases hr : applyMod h X m with
+    | mk h1 res =>
+      rw [hr] at c1
+      cases res with
+      | ok u => cases u; exact ih c1
+      | error e => exact c1
+
+theorem entityCopies_nonvar (h : Heap) (owner : Oid) (es : List Oid) {os : List Obj}
+    (hc : entityCopies h owner es = some os) : ∀ o ∈ os, ∀ v, o ≠ Obj.var v := by
+  intro o ho v
+  obtain ⟨k, rfl⟩ := entityCopies_spec h owner es hc o ho
+  simp
+
+theorem consistent_reformInit {h : Heap} (hc : Consistent h) {src : Oid} {h1 : Heap} {R : Oid}
+    (hr : reformInit h src = .ok (h1, R)) : Consistent h1 := by
+  unfold reformInit at hr
+  cases hs : h.getSys src with
+  | none => rw [hs] at hr; cases hr
+  | some s =>
+    rw [hs] at hr
+    dsimp only at hr
+    cases hec : entityCopies h h.next s.entities with
+    | none => rw [hec] at hr; simp at hr
+    | some ents =>
+      cases hm : h.getMap s.vars with
+      | none => rw [hec, hm] at hr; simp at hr
+      | some m =>
+        rw [hec, hm] at hr
+        simp only [Except.ok.injEq, Prod.mk.injEq] at hr
+        rw [← hr.1]
+        refine consistent_allocs_nonvar hc _ ?_
+        intro o ho v
+        rcases List.mem_cons.mp ho with rfl | ho
+        · simp
+        · rcases List.mem_append.mp ho with ho | ho
+          · exact entityCopies_nonvar h _ _ hec o ho v
+          · simp at ho; subst ho; simp
+
+theorem consistent_reformSys {h : Heap} (hc : Consistent h) (src : Oid) (mods : List Mod) :
+    Consistent (reformSys h src mods).1 := by
+  unfold reformSys
+  cases hr : reformInit h src with
+  | error e => exact hc
+  | ok r =>
+    obtain ⟨h1, sid⟩ := r
+    dsimp only
+    have c2 := consistent_applyMods (consistent_reformInit hc hr) sid mods
+    cases hm : applyMods h1 sid mods with
+    | mk h2 res =>
+      rw [hm] at c2
+      cases res with
+      | ok u => cases u; exact c2
+      | error e => exact c2
+
+/-- `copy.deepcopy` of a variable keeps the invariant: the copy is rebuilt from the copy of its
+    baseline, which has the same observable content -/
+theorem consistent_copyVar (fuel : Nat) {h : Heap} (hc : Consistent h) (vid : Oid) {h1 : Heap} {vid' : Oid}
+    (hcp : copyVar fuel h vid = some (h1, vid')) : Consistent h1 := by
+  induction fuel generalizing h vid h1 vid' with
+  | zero => cases hcp
+  | succ fuel ih =>
+    obtain ⟨v, hv, hcase⟩ := copyVar_inv hcp
+    obtain ⟨c, hcl, ha⟩ := hc vid v hv
+    rcases hcase with ⟨hb, rfl, _⟩ | ⟨b, h0, b', hb, hr, rfl, _⟩
+    · refine consistent_step hc (keeps_allocs h 0 _).keepVar (fun i w hg => ?_)
+      rcases getVar_allocs_cases hg with h1 | ⟨_, h2⟩
+      · exact Or.inl h1
+      · right
+        have hi : i - h.next = 0 := by
+          cases hx : i - h.next with
+          | zero => rfl
+          | succ k => rw [hx] at h2; simp at h2
+        rw [hi] at h2
+        simp only [List.getElem?_cons_zero, Option.some.injEq, Obj.var.injEq] at h2
+        subst h2
+        exact ⟨c, construct_keeps (keeps_allocs h 0 _).keepVar hcl, ha⟩
+    · have c0 : Consistent h0 := ih hc b hr
+      obtain ⟨bo, bo', hbo, hbo', hview, _, _, _⟩ := copyVar_spec fuel h b hr
+      refine consistent_step c0 (keeps_allocs h0 0 _).keepVar (fun i w hg => ?_)
+      rcases getVar_allocs_cases hg with h1 | ⟨_, h2⟩
+      · exact Or.inl h1
+      · right
+        have hi : i - h0.next = 0 := by
+          cases hx : i - h0.next with
+          | zero => rfl
+          | succ k => rw [hx] at h2; simp at h2
+        rw [hi] at h2
+        simp only [List.getElem?_cons_zero, Option.some.injEq, Obj.var.injEq] at h2
+        subst h2
+        -- the original is rebuilt from `b`, the copy from `b'`
+        have hcw : constructWith v.cls (some b) (some bo) = .ok c := by
+          have := hcl
+          unfold cloneVar construct at this
+          rw [hb] at this
+          dsimp only at this
+          rw [hbo] at this
+          exact this
+        have hcw' := constructWith_view_congr (i' := b') hview hcw
+        refine ⟨{ c with baseline := some b' }, ?_, ?_⟩
+        · show construct (h0.allocs _) v.cls (some b') = _
+          unfold construct
+          dsimp only
+          rw [(keeps_allocs h0 0 _).keepVar _ _ hbo']
+          exact hcw'
+        · obtain ⟨a1, a2, a3, a4, a5, a6, a7⟩ := ha
+          exact ⟨a1, a2, a3, a4, a5, a6, a7⟩
+
+theorem consistent_copyVars {h : Heap} (hc : Consistent h) (m : List (String × Oid)) {h2 : Heap}
+    {m' : List (String × Oid)} (hcp : copyVars h m = some (h2, m')) : Consistent h2 := by
+  induction m generalizing h h2 m' with
+  | nil =>
+    simp only [copyVars, Option.some.injEq, Prod.mk.injEq] at hcp
+    rw [← hcp.1]; exact hc
+  | cons pr r ih =>
+    obtain ⟨k, vid⟩ := pr
+    obtain ⟨ha, vid', r', h1, h2', _⟩ := copyVars_inv hcp
+    exact ih (consistent_copyVar _ hc vid h1) h2'
+
+theorem consistent_cloneSys {h : Heap} (hc : Consistent h) {src : Oid} {h' : Heap} {N : Oid}
+    (hcl : cloneSys h src = .ok (h', N)) : Consistent h' := by
+  unfold cloneSys at hcl
+  cases hs : h.getSys src with
+  | none => rw [hs] at hcl; cases hcl
+  | some s =>
+    rw [hs] at hcl
+    dsimp only at hcl
+    cases hec : entityCopies h h.next s.entities with
+    | none => rw [hec] at hcl; simp at hcl
+    | some ents =>
+      cases hp : h.getPar s.params with
+      | none => rw [hec, hp] at hcl; simp at hcl
+      | some p =>
+        cases hm : h.getMap s.vars with
+        | none => rw [hec, hp, hm] at hcl; simp at hcl
+        | some m =>
+          rw [hec, hp, hm] at hcl
+          dsimp only at hcl
+          generalize hh1 : h.allocs _ = h1 at hcl
+          cases hcv : copyVars h1 m with
+          | none => rw [hcv] at hcl; cases hcl
+          | some r =>
+            obtain ⟨h2, m'⟩ := r
+            rw [hcv] at hcl
+            simp only [Except.ok.injEq, Prod.mk.injEq] at hcl
+            rw [← hcl.1]
+            have c1 : Consistent h1 := by
+              rw [← hh1]
+              refine consistent_allocs_nonvar hc _ ?_
+              intro o ho v
+              rcases List.mem_cons.mp ho with rfl | ho
+              · simp
+              · rcases List.mem_append.mp ho with ho | ho
+                · exact entityCopies_nonvar h _ _ hec o ho v
+                · simp at ho; subst ho; simp
+            have c2 : Consistent h2 := consistent_copyVars c1 m hcv
+            have c3 : Consistent (h2.allocs [.vmap m']) :=
+              consistent_allocs_nonvar c2 _ (by intro o ho v; simp at ho; subst ho; simp)
+            -- the system object allocated first is completed in place
+            have hn1 : h.next < h1.next := by rw [← hh1, next_allocs]; simp
+            obtain ⟨os2, e2, _⟩ := copyVars_allocs h1 m hcv
+            have hlt2 : h.next < h2.next := by rw [e2, next_allocs]; omega
+            have lS : (h2.allocs [.vmap m']).look h.next = some (.sys
+                ⟨(List.range ents.length).map (fun i => h.next + 1 + i), h.next, h.next + 1 + ents.length, s.baseline⟩) := by
+              rw [look_allocs_lt h2 _ hlt2, e2, look_allocs_lt h1 _ hn1, ← hh1]
+              have := look_allocs_ge h (Obj.sys ⟨(List.range ents.length).map (fun i => h.next + 1 + i), h.next,
+                h.next + 1 + ents.length, s.baseline⟩ :: ents ++ [Obj.par p]) 0
+              simpa using this
+            exact consistent_put_nonvar c3 lS (by intro v; simp) (by intro e; simp) (by intro v; simp)
+
+theorem consistent_step_op {st : State} (hc : Consistent st.heap) (op : Op) : Consistent (step st op).1.heap := by
+  cases op with
+  | clone src =>
+    simp only [step]
+    cases st.systems[src]? with
+    | none => exact hc
+    | some sid =>
+      dsimp only
+      cases hcl : cloneSys st.heap sid with
+      | error e => exact hc
+      | ok r => obtain ⟨h', N⟩ := r; exact consistent_cloneSys hc hcl
+  | reform src mods =>
+    simp only [step]
+    cases st.systems[src]? with
+    | none => exact hc
+    | some sid =>
+      dsimp only
+      have c := consistent_reformSys hc sid mods
+      cases hr : reformSys st.heap sid mods with
+      | mk h' res => rw [hr] at c; cases res <;> exact c
+  | modify tgt m =>
+    simp only [step]
+    cases st.systems[tgt]? with
+    | none => exact hc
+    | some sid =>
+      dsimp only
+      have c := consistent_applyMod hc sid m
+      cases hr : applyMod st.heap sid m with
+      | mk h' res =>
+        rw [hr] at c
+        cases res with
+        | ok u => cases u; exact c
+        | error e => exact c
+
+theorem consistent_run {st : State} (hc : Consistent st.heap) (ops : List Op) : Consistent (run st ops).heap := by
+  induction ops generalizing st with
+  | nil => exact hc
+  | cons op r ih => exact ih (consistent_step_op hc op)
+
+theorem resolve_some_inv {h : Heap} {X : Oid} {name : String} {vid : Oid} (hr : resolve h X name = some vid) :
+    ∃ s m, h.getSys X = some s ∧ h.getMap s.vars = some m ∧ dictGet name m = some vid := by
+  unfold resolve at hr
+  cases hs : h.getSys X with
+  | none => rw [hs] at hr; cases hr
+  | some s =>
+    rw [hs] at hr
+    dsimp only at hr
+    cases hm : h.getMap s.vars with
+    | none => rw [hm] at hr; cases hr
+    | some m => rw [hm] at hr; exact ⟨s, m, rfl, hm, hr⟩
+
+theorem neutralizeVar_eq {h : Heap} {X : Oid} {name : String} {s : SysObj} {m : List (String × Oid)}
+    {vid : Oid} {v c : VarObj} (hs : h.getSys X = some s) (hm : h.getMap s.vars = some m)
+    (hd : dictGet name m = some vid) (hv : h.getVar vid = some v) (hcl : cloneVar h v = .ok c) :
+    neutralizeVar h X name = (bindVar h s m name { c with isNeutralized := true }, .ok ()) := by
+  unfold neutralizeVar
+  rw [hs]; dsimp only; rw [hm]; dsimp only; rw [hd]; dsimp only; rw [hv]; dsimp only; rw [hcl]
+
+theorem annualizeVar_eq {h : Heap} {X : Oid} {name : String} {s : SysObj} {m : List (String × Oid)}
+    {vid : Oid} {v c : VarObj} (hs : h.getSys X = some s) (hm : h.getMap s.vars = some m)
+    (hd : dictGet name m = some vid) (hv : h.getVar vid = some v) (hcl : cloneVar h v = .ok c) :
+    annualizeVar h X name =
+      (bindVar h s m name { c with formulas := v.formulas.map (fun p => (p.1, Fml.annual p.2)),
+                                   isNeutralized := v.isNeutralized }, .ok ()) := by
+  unfold annualizeVar
+  rw [hs]; dsimp only; rw [hm]; dsimp only; rw [hd]; dsimp only; rw [hv]; dsimp only; rw [hcl]
+
+/-- executable check of `Consistent` (for concrete heaps) -/
+def consistentB (h : Heap) : Bool :=
+  (List.range h.next).all fun i =>
+    match h.getVar i with
+    | none => true
+    | some v =>
+      match cloneVar h v with
+      | .ok c => decide (AttrsEq c v)
+      | .error _ => false
+
+theorem consistent_of_check {h : Heap} (hb : consistentB h = true) : Consistent h := by
+  intro i v hv
+  have hlt := lt_next_of_look h (look_of_getVar hv)
+  have := List.all_eq_true.mp hb i (List.mem_range.mpr hlt)
+  rw [hv] at this
+  dsimp only at this
+  cases hc : cloneVar h v with
+  | error e => rw [hc] at this; cases this
+  | ok c => rw [hc] at this; exact ⟨c, rfl, of_decide_eq_true this⟩
+
 end OFCore.HeapSys
